@@ -1,0 +1,7 @@
+//go:build !verif
+
+package nextroute
+
+func verifNote(_ string, _ ...any) {}
+
+func verifYield(_ string) {}
